@@ -251,7 +251,7 @@ def dyn_interp(L):
     ConstantValue::type_desc and ensure_concrete_string."""
     stubs4 = base_stubs()
     stubs4.update({
-        'CodeBuilder::emit_result': lambda a: ('Local', ('#struct', 'Local', {'name': ('LocalRef', 1), 'ty': a[1], 'byte_range': ('#range',), 'rv': a[2][0] if isinstance(a[2], tuple) and a[2] else '?'})),
+        'CodeBuilder::emit_result': lambda a: ('Local', ('#struct', 'Local', {'name': ('LocalRef', 1), 'ty': a[1], 'byte_range': ('#range',), 'rv': a[2][0] if isinstance(a[2], tuple) and a[2] else '?', 'rvfull': a[2]})),
         'to_string': lambda a: ('#str',),
         'qualified_name': lambda a: ('#str',),
         'qualified_cxx_name': lambda a: ('#str',),
@@ -290,6 +290,21 @@ def dyn_builtin(I4, kind, args):
         return result_type(got)
     except aeval.Undecided as e:
         return 'undecided:%s' % e
+
+
+def dyn_builtin_arg_types(I4, kind, args):
+    """TypeDescs of the operands as they stand in the emitted Rvalue::CallBuiltinFunction (the builder may have replaced a literal
+    by a typed temporary), or None."""
+    try:
+        got = I4.call(VISIT_BUILTIN, [('#self',), kind, ('#vec',) + tuple(operand(a) for a in args), ('#range',)], 0)
+    except aeval.Undecided:
+        return None
+    if not (isinstance(got, tuple) and got and got[0] == 'Ok' and isinstance(got[1], tuple) and got[1][0] == 'Local'):
+        return None
+    rv = got[1][1][2].get('rvfull')
+    if not (isinstance(rv, tuple) and rv and rv[0] == 'CallBuiltinFunction' and isinstance(rv[-1], tuple) and rv[-1][:1] == ('#vec',)):
+        return None
+    return [op_type(x) for x in rv[-1][1:]]
 
 
 def run(ck):
